@@ -219,14 +219,19 @@ def Params.has (p : Params) (k : Str) : Bool := p.any (·.1 = k)
 def Params.set (p : Params) (k : Str) (v : Val) : Params :=
   if p.has k then p.map (fun (k', w) => if k' = k then (k', v) else (k', w)) else p ++ [(k, v)]
 
-/-- `config.class_factory(clazz, params)` = `clazz(**params)` -/
+/-- `config.class_factory(clazz, params)` = `clazz(**params)`: the instance holds every
+declared field, in declaration order, from `params` or from the field default -/
 def classFactory (Γ : Ctx) (clazz : ClassId) (params : Params) : Except Err Val :=
   match Γ.find clazz with
   | none => .error (.context "unknown class")
   | some ci =>
-    if ci.fields.any (fun f => f.init && !f.hasDefault && !params.has f.name) then
-      .error (.parser "Failed to create")   -- the constructor's TypeError, reported as ParserError
-    else .ok (.obj clazz params)
+    let vals := ci.fields.map fun f =>
+      match (if f.init then params.get f.name else none), f.default with
+      | some v, _ => some (f.name, v)
+      | none, some d => some (f.name, d)
+      | none, none => none
+    if vals.all Option.isSome then .ok (.obj clazz (vals.filterMap id))
+    else .error (.parser "Failed to create")   -- the constructor's TypeError, reported as ParserError
 
 /-! ### nodes -/
 
